@@ -4,6 +4,7 @@
   acknowledged appends, reopen — is carried by the fault suite's ghost-state monitors on the real code)
 -/
 import RaftWal.Proofs.SegmentChainRepair
+import RaftWal.Generated.SegWriter
 import RaftWal.Proofs.SegmentChainFault
 import RaftWal.Proofs.SegmentFaults
 import RaftWal.Proofs.CrashCorollaries
@@ -92,18 +93,21 @@ theorem fault_model_extends_crash_model (p : Fault.Proc) (hf : Fault.Fresh p) (o
 theorem restart_needs_the_stronger_invariant : ¬ Fault.restart_total_stmt0 ∧ ¬ Fault.restart_view_stmt0 :=
   ⟨Fault.restart_total_refuted, Fault.restart_view_refuted⟩
 
-/-! ### chains with I/O faults: failed appends, whose bytes stay behind the tail (observation O21, a recorded finding)
+/-! ### chains with I/O faults: failed appends, whose bytes stay behind the tail (defect O21: found here, since repaired in /repo)
 
     `ChainEvF` adds `failed b fault` to the chain events: an append that fails on an injected write or fsync fault — the
     call returns an error, the writer is rolled back in memory, the file keeps what landed. `chain_atomic_faults_stmt` says
     of such chains what `chain_atomic` says of fault-free ones (every acknowledged batch present, anything else present is
     one whole submitted batch — the pending failed one included, as C10 allows —, nothing partial, nothing fabricated,
-    modulo CRC-32C collisions). It is FALSE of the model, and of the code: -/
+    modulo CRC-32C collisions). For the writer as it was pinned (`Writer.append`: rollback in memory only) it is FALSE, and it was false
+    of the code; the repaired writer is `appendD` / `forceSealD` (Model/SegmentRepair.lean), which is what the segment suite now
+    compares the code with: -/
 
 /-- the witness, evaluated by the kernel: an acknowledged append, an append whose fsync fails and whose single payload
     embeds an entry frame `[42]` and a commit frame with that frame's CRC-32C, a shorter acknowledged append, a restart —
     three entries are recovered and index 7 reads `[42]`, which nobody stored. No CRC collision is involved. The same
-    input is replayed on the real code by the segment suite on every run (known finding O21). -/
+    input is run on the real code by the segment suite on every run (`seg-staleinject-*`: since the repair it must come back with
+    the two acknowledged entries only). -/
 theorem failed_append_stale_bytes_fabricate_an_entry : type_of% RaftWal.faultW3_outcome :=
   -- the statement (Proofs/SegmentChainFault.lean): `chainRunF faultInfo (freshSegment faultInfo) faultW3` is `.ok p` with
   -- `p.1.offsets.length = 3` and `p.1.getLog p.2 7 64 = .ok [42]`
@@ -121,8 +125,8 @@ theorem chain_atomic_faults_partial (info : SegInfo) (evs : List ChainEvF) (l : 
         ∧ (∀ x ∈ file.drop w.writeOffset, x = 0) :=
   RaftWal.chain_atomic_faults_partial info evs l hp hwf
 
-/-! ### the repair of O21, designed and proved on the model before it is made in the code (NOT tied to /repo: no fact, no
-    correspondence suite speaks about `appendD` yet — it describes the planned change to segment/writer.go)
+/-! ### the repair of O21: designed and proved on the model first, then made in /repo (fix 2e58a17); tied to the code by the fact
+    `writer_clears_stale_tail_before_write` and by the segment suite, whose model side now runs `appendD` / `forceSealD`
 
     `Model/SegmentRepair.lean`: the writer with a `dirty` flag (`WriterD`); `appendD` first zeroes and fsyncs what a failed
     append left behind the tail (`clearStale`; the step can itself be hit by the fault: fsync fails after the zeros were
@@ -140,5 +144,9 @@ theorem repaired_witnesses : type_of% RaftWal.faultW3_repaired ∧ type_of% Raft
 theorem chain_atomic_repaired_sync (info : SegInfo) (evs : List ChainEvF) (hwf : ChainWFF info evs) (hsync : SyncOnly evs) :
     ChainCollisionD info evs ∨ ∃ s file bs, RepairResult info evs s file bs :=
   RaftWal.chain_atomic_repaired_sync info evs hwf hsync
+
+/-- T1: `Writer.sync` clears what a failed write left behind the tail before the next write, and refuses the write if it
+    cannot (read from segment/writer.go on every run) -/
+theorem writer_clears_stale_tail_before_write : Generated.writerClearsStaleTailBeforeWrite = true := by decide
 
 end RaftWal.C10
